@@ -89,6 +89,17 @@ func (l *Lexer) atEOF() bool {
 	return l.pos >= len(l.input)
 }
 
+// atTaskKeyword returns whether or not the lexer is sat at the start of the 'task' keyword,
+// as opposed to an identifier that merely starts with it e.g. 'tasks' or 'task_dir'.
+func (l *Lexer) atTaskKeyword() bool {
+	rest := l.rest()
+	if !strings.HasPrefix(rest, token.TASK.String()) {
+		return false
+	}
+	r, _ := utf8.DecodeRuneInString(rest[len(token.TASK.String()):])
+	return !isValidIdent(r)
+}
+
 // skipWhitespace consumes any utf-8 whitespace until something meaningful is hit.
 func (l *Lexer) skipWhitespace() {
 	for {
@@ -223,7 +234,7 @@ func lexStart(l *Lexer) lexFn {
 	switch {
 	case strings.HasPrefix(l.rest(), token.HASH.String()):
 		return lexHash
-	case strings.HasPrefix(l.rest(), token.TASK.String()):
+	case l.atTaskKeyword():
 		return lexTaskKeyword
 	case isValidIdent(l.peek()):
 		return lexIdent
@@ -471,6 +482,7 @@ func lexIdent(l *Lexer) lexFn {
 			break
 		}
 	}
+	name := l.all()
 	l.emit(token.IDENT)
 	l.skipWhitespace()
 
@@ -480,6 +492,14 @@ func lexIdent(l *Lexer) lexFn {
 		return lexLeftParen
 	case strings.HasPrefix(l.rest(), token.DECLARE.String()):
 		// We have a global variable declaration
+		if name == token.TASK.String() {
+			return l.error(syntaxError{
+				message: "'task' is a reserved keyword and cannot be used as a variable name",
+				context: l.getLine(),
+				line:    l.line,
+				pos:     l.pos,
+			})
+		}
 		return lexDeclare
 	case l.atEOL(), l.atEOF():
 		// We've just lexed an ident on the RHS of a declaration
